@@ -2,9 +2,11 @@ package engg
 
 import (
 	"bufio"
+	"context"
 	"encoding/json"
 	"fmt"
 	"os"
+	"os/exec"
 	"path/filepath"
 	"sort"
 	"strconv"
@@ -271,6 +273,13 @@ func checkC11(c *core.Ctx) error {
 			}
 		}
 	}
+	// unbounded-length safety of the table (bijection, reserved names never taken): inductive invariant by Apalache
+	if ind, err := apalacheInductive(c); err != nil {
+		c.Warn("Apalache inductive-invariant run did not conclude: " + err.Error())
+		c.Set("inductive_invariant", "not concluded: "+err.Error())
+	} else {
+		c.Set("inductive_invariant", ind)
+	}
 	nontriv := 0
 	for _, o := range outs {
 		if len(o.Sc.Calls) >= 2 {
@@ -301,4 +310,30 @@ func trim(s string, n int) string {
 		return s[:n] + "..."
 	}
 	return s
+}
+
+// apalacheInductive discharges Init => IndInv and IndInv /\ Next => IndInv' of spec/gen/apalache/NameTableInd.tla.
+// It strengthens the evidence (any number of registrations, not only MaxCalls); it is not needed for the verdict.
+func apalacheInductive(c *core.Ctx) (string, error) {
+	dir := filepath.Join(c.Work, "apalache")
+	os.MkdirAll(dir, 0755)
+	src, err := os.ReadFile(filepath.Join(c.Verif, "spec", "gen", "apalache", "NameTableInd.tla"))
+	if err != nil {
+		return "", err
+	}
+	if err := os.WriteFile(filepath.Join(dir, "NameTableInd.tla"), src, 0644); err != nil {
+		return "", err
+	}
+	for _, step := range [][]string{{"--init=Init", "--length=0"}, {"--init=IndInit", "--length=1"}} {
+		ctx, cancel := context.WithTimeout(context.Background(), 10*time.Minute)
+		args := append([]string{"check", "--cinit=CInit", "--inv=IndInv"}, step...)
+		cmd := exec.CommandContext(ctx, "apalache-mc", append(args, "NameTableInd.tla")...)
+		cmd.Dir = dir
+		out, err := cmd.CombinedOutput()
+		cancel()
+		if !strings.Contains(string(out), "The outcome is: NoError") {
+			return "", fmt.Errorf("apalache %v: %v: %s", step, err, trim(string(out), 400))
+		}
+	}
+	return "Init => IndInv and IndInv /\\ Next => IndInv' discharged by Apalache for NameTableInd.tla (5 names, 4 keys, any number of registrations)", nil
 }
